@@ -64,9 +64,10 @@ type agg struct {
 	maxRatIn [2]string
 	executed int64
 	// hang / allocation probe candidates: class -> best witness
-	cand    map[string]*candidate
-	samples int
-	seenSig map[string]bool
+	cand       map[string]*candidate
+	samples    int
+	seenSig    map[string]bool
+	errClasses map[string]int
 }
 
 type candidate struct {
@@ -77,10 +78,16 @@ type candidate struct {
 	Why   string
 }
 
+// addCandidate keeps, per class, the witness with the largest and the one with the
+// smallest declared value for the differential watchdog.
 func (a *agg) addCandidate(class string, val uint64, bin []byte, cs json.RawMessage, why string) {
-	cur := a.cand[class]
+	cur := a.cand[class+" (largest)"]
 	if cur == nil || val > cur.Val || (val == cur.Val && len(bin) < len(cur.Bin)) {
-		a.cand[class] = &candidate{Class: class, Val: val, Bin: bin, Case: cs, Why: why}
+		a.cand[class+" (largest)"] = &candidate{Class: class, Val: val, Bin: bin, Case: cs, Why: why}
+	}
+	cur = a.cand[class+" (smallest)"]
+	if cur == nil || val < cur.Val || (val == cur.Val && len(bin) < len(cur.Bin)) {
+		a.cand[class+" (smallest)"] = &candidate{Class: class, Val: val, Bin: bin, Case: cs, Why: why}
 	}
 }
 
@@ -95,6 +102,19 @@ func classify(bin []byte, ops []string) (string, uint64, string) {
 		return "after-" + ops[len(ops)-1], 0, "no lying count/size field found; last mutation " + ops[len(ops)-1]
 	}
 	return "unclassified", 0, "no lying count/size field found"
+}
+
+// allocSigClass: the locals run-length expansion is its own root cause; every
+// other lying count/size field belongs to the family "the decoder allocates
+// what a count or size field declares before looking at how much input is left".
+func allocSigClass(class string) string {
+	switch {
+	case class == "locals-count":
+		return class
+	case strings.HasPrefix(class, "after-"), class == "unclassified":
+		return "unclassified:" + class
+	}
+	return "declared-size:" + class
 }
 
 func witness(cs json.RawMessage, bin []byte, ops []string, extra map[string]any) map[string]any {
@@ -137,13 +157,14 @@ func (a *agg) allocViolation(cs json.RawMessage, bin []byte, ops []string, combo
 	a.c.Count("alloc_violations", 1)
 	a.c.Count("alloc_violation_class_"+class, 1)
 	a.addCandidate(class, val, bin, cs, "alloc")
-	a.violate("compile:disproportionate-allocation:"+class, detail+"; "+why+"; combo "+combo, func() map[string]any {
+	a.violate("compile:disproportionate-allocation:"+allocSigClass(class), detail+"; "+why+"; combo "+combo, func() map[string]any {
 		return witness(cs, bin, ops, map[string]any{"combo": combo, "class": class, "why": why,
 			"bound": map[string]any{"A": a.bnd.A, "B": a.bnd.B, "engines": engNames}})
 	})
 }
 
 var (
+	reCtl   = regexp.MustCompile(`C03-PROBE control-done ms=([0-9.]+)`)
 	reAbort = regexp.MustCompile(`C03-ABORT kind=(\w+) phase=(\w*) ?([^\n]*)`)
 	rePhase = regexp.MustCompile(`(?m)^C03@ (\w+) ([^\n]*)$`)
 )
@@ -270,6 +291,7 @@ func (a *agg) add(cs json.RawMessage, ic *inCase, o *outCase, calibrating bool) 
 	}
 	for _, e := range o.Errs {
 		c.Distinct("error_classes", e)
+		a.errClasses[e]++
 	}
 	c.Count("instantiations_ok", int64(o.Inst))
 	c.Count("export_calls", int64(o.Calls))
@@ -353,7 +375,7 @@ func run(c *core.Ctx) int {
 	}
 	defer os.Remove(corpusPath)
 	env := []string{"C03_CORPUS=" + corpusPath}
-	a := &agg{c: c, seeds: seeds, hashes: map[uint64]struct{}{}, mutHash: map[uint64]struct{}{}, cand: map[string]*candidate{}}
+	a := &agg{c: c, seeds: seeds, hashes: map[uint64]struct{}{}, mutHash: map[uint64]struct{}{}, cand: map[string]*candidate{}, errClasses: map[string]int{}}
 	total := c.N(60000, 3000000)
 	if v, err := strconv.Atoi(os.Getenv("C03_N")); err == nil && v > 0 {
 		total = v // development / validation runs only
@@ -446,10 +468,14 @@ func run(c *core.Ctx) int {
 			continue
 		}
 		for k := 0; k < nCombo; k++ {
-			if o.Acc[k] >= 0 && o.Alloc[k] > a.bnd.limit(o.Len, k%2) {
+			lim := a.bnd.limit(o.Len, k%2)
+			if o.Acc[k] == 0 {
+				lim = a.bnd.rejectedLimit(o.Len)
+			}
+			if o.Acc[k] >= 0 && o.Alloc[k] > lim {
 				o.AllocViol = true
 				o.Findings = append(o.Findings, finding{Sig: "ALLOC", Combo: comboName(k),
-					Detail: fmt.Sprintf("TotalAlloc delta %d > bound %d (input %d bytes)", o.Alloc[k], a.bnd.limit(o.Len, k%2), o.Len)})
+					Detail: fmt.Sprintf("TotalAlloc delta %d > bound %d (input %d bytes)", o.Alloc[k], lim, o.Len)})
 				break
 			}
 		}
@@ -510,6 +536,14 @@ func run(c *core.Ctx) int {
 	lap("watchdog probes")
 
 	// ---- evidence
+	{
+		var l []string
+		for e, n := range a.errClasses {
+			l = append(l, fmt.Sprintf("%8d  %s", n, e))
+		}
+		sort.Strings(l)
+		os.WriteFile(filepath.Join(c.Out, fmt.Sprintf("error-classes-%s-%d.txt", c.Tier, c.Seed)), []byte(strings.Join(l, "\n")+"\n"), 0o644)
+	}
 	c.Extra("max_alloc_per_input_byte", map[string]any{
 		engNames[0]: map[string]any{"ratio": a.maxRatio[0], "input": a.maxRatIn[0]},
 		engNames[1]: map[string]any{"ratio": a.maxRatio[1], "input": a.maxRatIn[1]},
@@ -526,7 +560,7 @@ func run(c *core.Ctx) int {
 	if c.DistinctN("mutation_op_kinds") < 40 {
 		c.Inconclusive("mutation-operators-barely-applied")
 	}
-	c.Assume("allocation bound calibrated on accepted unmutated inputs (corpus, wgen, and three hand-built modules with one function of 50 000 locals = the per-function limit other engines accept) with 4x headroom; TotalAlloc is read around CompileModule only, in a child that runs nothing else")
+	c.Assume("allocation bound calibrated on accepted unmutated inputs (corpus, wgen, and three hand-built modules with one function of 50 000 locals = the per-function limit other engines accept) with 4x headroom; a rejected input is held to the smaller of the two engines' bounds (it never reached an engine); TotalAlloc is read around CompileModule only, in a child that runs nothing else")
 	c.Assume("runtimes use WithMemoryLimitPages(512) and WithCloseOnContextDone(true); modules declaring memory min > 256 pages or table min > 2^20 are compiled but not instantiated")
 	c.Assume("a compile that does not return within the step budget is inconclusive unless the differential watchdog (same input alone, long budget, after a control input of similar size that finishes) confirms it; a guest that does not return after its deadline is left to C07")
 	c.Assume("not demanded: rejecting every invalid module; equal acceptance on both engines; equal results on both engines (C01)")
@@ -582,7 +616,7 @@ func (a *agg) probes(env []string, accSeeds []int) {
 	res := core.RunCases(c, "probe", cases, core.ChildOpts{Batch: 1, TimeoutS: budget + 60, RlimitAS: rlimitAS, Env: envP})
 	table := []map[string]any{}
 	for i, r := range res {
-		row := map[string]any{"class": info[i].class, "combo": comboName(info[i].combo), "input_len": len(a.cand[info[i].class].Bin), "found_by": a.cand[info[i].class].Why}
+		row := map[string]any{"class": info[i].class, "declared": a.cand[info[i].class].Val, "combo": comboName(info[i].combo), "input_len": len(a.cand[info[i].class].Bin), "found_by": a.cand[info[i].class].Why}
 		c.Count("watchdog_probes", 1)
 		if r.Crash == nil {
 			var o outCase
@@ -595,16 +629,22 @@ func (a *agg) probes(env []string, accSeeds []int) {
 			c.Count("watchdog_probe_returned", 1)
 		} else {
 			log := readTail(r.Crash.Log, 1<<20)
-			ctlDone := bytes.Contains(log, []byte("C03-PROBE control-done"))
+			ctlDone := false
+			if m := reCtl.FindSubmatch(log); m != nil {
+				ms, _ := strconv.ParseFloat(string(m[1]), 64)
+				row["control_ms"] = ms
+				// the control must have been at least 1000x faster than the budget
+				ctlDone = ms*1000 <= float64(budget)*1000
+			}
 			ab := reAbort.FindSubmatch(log)
 			switch {
 			case ab != nil && string(ab[1]) == "timeout" && ctlDone:
 				row["outcome"] = fmt.Sprintf("did not return within %ds; control returned", budget)
 				cd := a.cand[info[i].class]
 				c.Count("watchdog_probe_hang", 1)
-				c.Violate("compile:hang:"+info[i].class,
-					fmt.Sprintf("CompileModule of a %d-byte input did not return within %d s on %s while a control input of %d bytes compiled first in the same child", len(cd.Bin), budget, comboName(info[i].combo), len(control(len(cd.Bin)))),
-					witness(cd.Case, cd.Bin, nil, map[string]any{"combo": comboName(info[i].combo), "class": info[i].class}))
+				c.Violate("compile:hang:"+cd.Class,
+					fmt.Sprintf("CompileModule of a %d-byte input did not return within %d s of CPU time on %s while a control input of %d bytes compiled first in the same child", len(cd.Bin), budget, comboName(info[i].combo), len(control(len(cd.Bin)))),
+					witness(cd.Case, cd.Bin, nil, map[string]any{"combo": comboName(info[i].combo), "class": cd.Class}))
 			case bytes.Contains(log, []byte("out of memory")) || bytes.Contains(log, []byte("cannot allocate memory")):
 				row["outcome"] = "child out of memory under RLIMIT_AS"
 				c.Count("watchdog_probe_oom", 1)
@@ -624,6 +664,9 @@ func (a *agg) probes(env []string, accSeeds []int) {
 // removeChildFiles deletes what this run's children left behind (crash logs have
 // been read into the witnesses by now); files of concurrent runs are left alone.
 func removeChildFiles(c *core.Ctx) {
+	if os.Getenv("C03_KEEP") != "" {
+		return
+	}
 	files, _ := filepath.Glob(filepath.Join(c.Out, "children", fmt.Sprintf("*-%d-*", os.Getpid())))
 	for _, f := range files {
 		os.Remove(f)
